@@ -185,10 +185,13 @@ func (z *ZodNever[T, R]) PrefaultFunc(fn func() T) *ZodNever[T, R] {
 	return z.withInternals(in)
 }
 
-// Meta stores metadata for this schema in the global registry.
+// Meta returns a new schema with the given metadata stored in the global
+// registry; the receiver and its registry entry are unchanged.
 func (z *ZodNever[T, R]) Meta(meta core.GlobalMeta) *ZodNever[T, R] {
-	core.GlobalRegistry.Add(z, meta)
-	return z
+	newInternals := z.internals.Clone()
+	clone := z.withInternals(newInternals)
+	core.GlobalRegistry.Add(clone, meta)
+	return clone
 }
 
 // Describe registers a description for this schema in the global registry.
